@@ -39,6 +39,7 @@ type Machine struct {
 	Tail    []ast.Stmt     // statements after _out (the end of Lex)
 	Problems []string
 	predCache map[string]tri
+	inlineDepth int
 }
 
 func (m *Machine) info() *types.Info { return m.Pkg.TypesInfo }
